@@ -21,7 +21,7 @@ RULE = ("files of 1..60 (quick) / 1..400 (thorough) residues of 1..12 atoms writ
         "alternating kinds, same name with different sizes, same name and size with different atom names, kinds colliding "
         "in every combination of name / size / atom names in random first-seen order, neighbours "
         "differing only in number or only in name, residue names beginning with a digit, repeated numbers; with / "
-        "without velocities; access histories of up to 40 (quick) / 200 operations: index, negative index, slice with "
+        "without velocities (some atoms frozen: velocity components exactly zero), LF or CRLF line ends; access histories of up to 40 (quick) / 200 operations: index, negative index, slice with "
         "negative bounds/steps, several live iterators advanced in pieces, out-of-range; in half of the cases the path "
         "held another file of equal size and modification time that was read through the library before. Non-trivial = file with >=3 "
         "kind changes and a backward seek after a partial iteration. Distinct = sha1 of the case JSON.")
@@ -98,16 +98,22 @@ def file_case(draw, tier):
         prev = ki
         rn, names = kinds[ki]
         for an in names:
-            rec = [resid, rn, an, len(records) + 1] + np.round(rng.uniform(-99, 99, 3), 3).tolist()
+            xyz = np.round(rng.uniform(-99, 99, 3), 3)
+            if rng.random() < 0.1:
+                xyz[rng.random(3) < 0.6] = 0.0              # atoms on a coordinate plane / at the origin
+            rec = [resid, rn, an, len(records) + 1] + xyz.tolist()
             if vel:
-                rec += np.round(rng.uniform(-9, 9, 3), 4).tolist()
+                v = np.round(rng.uniform(-9, 9, 3), 4)
+                if rng.random() < 0.25:
+                    v[rng.random(3) < 0.7] = 0.0            # frozen atoms: some or all components exactly zero
+                rec += v.tolist()
             records.append(rec)
     title = draw(st.sampled_from(["system", "Generated  title, t= 0.0", "x"]))
     box = np.round(rng.uniform(1, 50, 3), 5).tolist()
     nops = draw(st.integers(1, 200 if tier == "thorough" else 40))
     ops = draw(st.lists(op_strategy(), min_size=1, max_size=nops))
     return {"layout": layout, "records": records, "title": title, "box": box, "vel": vel, "ops": ops,
-            "prior": draw(st.booleans())}
+            "prior": draw(st.booleans()), "crlf": draw(st.integers(0, 4)) == 0}
 
 
 @st.composite
@@ -148,7 +154,7 @@ def check(case):
         old = lib("load", SystemGro, path)
         lib("iterate", list, old)
         del old
-    indep.write_gro(path, case["title"], records, case["box"])
+    indep.write_gro(path, case["title"], records, case["box"], newline="\r\n" if case.get("crlf") else None)
     if case.get("prior"):
         os.utime(path, (1700000000, 1700000000))
     parsed = indep.read_gro(path)
@@ -246,7 +252,9 @@ def check(case):
     return {"nontrivial": changes >= 3 and backward,
             "classes": ["layout:" + case["layout"], "vel" if case["vel"] else "novel",
                         "residues:%s" % ("1" if n == 1 else "2-14" if n <= 14 else "15+"),
-                        "rewritten-path" if case.get("prior") else "fresh-path"],
+                        "rewritten-path" if case.get("prior") else "fresh-path",
+                        "crlf" if case.get("crlf") else "lf",
+                        "zero-velocity-atom" if any(len(r) == 10 and not any(r[7:]) for r in records) else "no-frozen-atom"],
             "sample": {"layout": case["layout"], "n_residues": n, "first_records": case["records"][:3], "ops": case["ops"][:12]}}
 
 
